@@ -1231,3 +1231,84 @@ pub fn all_cases(tier: Tier) -> Vec<Box<dyn BoxCase>> {
     }
     out
 }
+
+// ---------------------------------------------------------------------------------------------
+// real boxes: bytes cut out of the canned (ffmpeg-produced) files, pushed through decode -> encode -> decode
+
+fn fx<B>(bytes: &[u8]) -> Result<Option<bool>, String>
+where
+    B: Mp4Box + PartialEq + std::fmt::Debug + for<'w> WriteBox<&'w mut Vec<u8>> + for<'r> ReadBox<&'r mut Cursor<Vec<u8>>>,
+{
+    let dec = |b: &[u8]| {
+        let mut cur = Cursor::new(b.to_vec());
+        guard(|| {
+            let h = BoxHeader::read(&mut cur)?;
+            B::read_box(&mut cur, h.size).map(|v| (v, cur.position()))
+        })
+    };
+    let (v1, pos) = match dec(bytes) {
+        Ok(Ok(v)) => v,
+        Ok(Err(e)) => return Err(format!("a box of a real file does not decode: {}", e)),
+        Err(p) => return Err(format!("PANIC in decode {}", short_loc(&p))),
+    };
+    if pos != bytes.len() as u64 {
+        return Err(format!("decode left the stream at {} of {}", pos, bytes.len()));
+    }
+    let mut out = vec![];
+    match guard(|| v1.write_box(&mut out)) {
+        Ok(Ok(n)) => {
+            if n != out.len() as u64 || v1.box_size() != out.len() as u64 {
+                return Err(format!("re-encode wrote {} bytes, returned {}, box_size {}", out.len(), n, v1.box_size()));
+            }
+        }
+        Ok(Err(_)) => return Ok(None),
+        Err(p) => return Err(format!("PANIC in re-encode {}", short_loc(&p))),
+    }
+    match dec(&out) {
+        Ok(Ok((v2, _))) => Ok(Some(v2 == v1)),
+        Ok(Err(e)) => Err(format!("re-encoded bytes do not decode: {}", e)),
+        Err(p) => Err(format!("PANIC in second decode {}", short_loc(&p))),
+    }
+}
+
+/// Some(result) when the library has a codec for this code.
+pub fn real_box_fixpoint(cc: &[u8; 4], bytes: &[u8]) -> Option<Result<Option<bool>, String>> {
+    Some(match cc {
+        b"ftyp" => fx::<FtypBox>(bytes),
+        b"moov" => fx::<MoovBox>(bytes),
+        b"mvhd" => fx::<MvhdBox>(bytes),
+        b"trak" => fx::<TrakBox>(bytes),
+        b"tkhd" => fx::<TkhdBox>(bytes),
+        b"edts" => fx::<EdtsBox>(bytes),
+        b"elst" => fx::<ElstBox>(bytes),
+        b"mdia" => fx::<MdiaBox>(bytes),
+        b"mdhd" => fx::<MdhdBox>(bytes),
+        b"hdlr" => fx::<HdlrBox>(bytes),
+        b"minf" => fx::<MinfBox>(bytes),
+        b"vmhd" => fx::<VmhdBox>(bytes),
+        b"smhd" => fx::<SmhdBox>(bytes),
+        b"dinf" => fx::<DinfBox>(bytes),
+        b"stbl" => fx::<StblBox>(bytes),
+        b"stsd" => fx::<StsdBox>(bytes),
+        b"avc1" => fx::<Avc1Box>(bytes),
+        b"mp4a" => fx::<Mp4aBox>(bytes),
+        b"stts" => fx::<SttsBox>(bytes),
+        b"ctts" => fx::<CttsBox>(bytes),
+        b"stss" => fx::<StssBox>(bytes),
+        b"stsc" => fx::<StscBox>(bytes),
+        b"stsz" => fx::<StszBox>(bytes),
+        b"stco" => fx::<StcoBox>(bytes),
+        b"co64" => fx::<Co64Box>(bytes),
+        b"udta" => fx::<UdtaBox>(bytes),
+        b"mvex" => fx::<MvexBox>(bytes),
+        b"mehd" => fx::<MehdBox>(bytes),
+        b"trex" => fx::<TrexBox>(bytes),
+        b"moof" => fx::<MoofBox>(bytes),
+        b"mfhd" => fx::<MfhdBox>(bytes),
+        b"traf" => fx::<TrafBox>(bytes),
+        b"tfhd" => fx::<TfhdBox>(bytes),
+        b"tfdt" => fx::<TfdtBox>(bytes),
+        b"trun" => fx::<TrunBox>(bytes),
+        _ => return None,
+    })
+}
